@@ -18,6 +18,7 @@ import (
 	"github.com/getlantern/zenodb/common"
 	"github.com/getlantern/zenodb/core"
 	"github.com/getlantern/zenodb/encoding"
+	"github.com/getlantern/zenodb/simhook"
 	"github.com/getlantern/zenodb/sql"
 )
 
@@ -473,6 +474,9 @@ func (db *DB) doProcessIterations(iterations []*iteration) {
 	}
 
 	iterations[0].t.log.Debugf("Coalescing %d iterations", len(iterations))
+	if simhook.Enabled {
+		simhook.Point(fmt.Sprintf("scan.coalesced.%d", len(iterations)), iterations[0].t.db, iterations[0].t.Name)
+	}
 
 	remainingIterations := make(map[int]*iteration, len(iterations))
 	for i, it := range iterations {
